@@ -130,7 +130,7 @@ theorem compile_correct (hW : W.Wf) : ∀ (h : Hint) (p : Pith) (k : Nat) (env :
   | .typeOf cs, p, k, env, x, _, _, hw, hp => by
     obtain ⟨env₁, n, he, hk', hf⟩ := asg_ok W r hp
     have hpost : Post env env₁ p k x := post_of_asg hk' hf
-    simp only [gen, chk]
+    simp only [gen, chk, typeOfTest]
     cases hs : W.sub x.cls cType with
     | false => exact ⟨env₁, n, by rw [and_first_false W r he (by simp [hs])]; simp, hpost⟩
     | true =>
